@@ -41,7 +41,7 @@ func (c12) Rule() string {
 func (c12) Assumptions() []string {
 	return []string{
 		"the fake source behaves like a valid source: per trigger one goroutine emits events, at most one Complete/Error per Start instance, nothing but Done after it; Done may also arrive from the context-end reaction",
-		"an event is a must-deliver for a subscriber only if the subscriber was seen attached to the emitting Start instance right before the call (updater.Subscriptions()), passes its filter, and the call returned before the first action that may remove the subscriber (own removal, writer failure, Done / failed start-up on the same key, shutdown)",
+		"an event is a must-deliver for a subscriber only if the subscriber was seen attached to the emitting Start instance right before the call (updater.Subscriptions()), passes its filter, and the call returned before the first action that may remove the subscriber (own removal, writer failure, Done / failed start-up on the same key - unless it belongs to a trigger that was certainly gone before the subscriber began to subscribe -, shutdown)",
 		"synchronous subscribers get their identifier from the resolver; it is learned through updater.Subscriptions(); for the ones never learned the completion point is the return of the API call",
 		"writer calls after the synchronous API returned because of resolver shutdown but before sub.done are counted, not judged (the statement names completion, unsubscription and client removal only)",
 	}
@@ -51,7 +51,7 @@ func (c12) RequiredCounters(tier string) []string {
 	return []string{"messages_checked", "must_obligations", "writer_calls", "sub_done_events", "racing_pairs_parked",
 		"hook:sub.update.beforeWriteLock", "hook:sub.complete.afterRemovedCheck", "hook:sub.error.afterRemovedCheck",
 		"hook:sub.heartbeat.beforeSend", "hook:sub.join.beforeStartupHook", "hook:sub.update.afterFilter",
-		"solo_crosschecks", "filtered_events_withheld", "source_defined_order_constraints", "overlapping_update_calls", "order_agreements_checked", "must_filter_match_first", "must_filter_match_later", "filter_shape_in+multi-value-in", "filter_shape_or+multi-value-in", "filter_shape_and+multi-value-in", "filter_shape_not+multi-value-in", "writer_heartbeats", "sync_ids_learned", "cases_history", "cases_script"}
+		"solo_crosschecks", "filtered_events_withheld", "source_defined_order_constraints", "overlapping_update_calls", "order_agreements_checked", "stale_source_finishes_not_accepted_as_removal", "script_row_15", "must_filter_match_first", "must_filter_match_later", "filter_shape_in+multi-value-in", "filter_shape_or+multi-value-in", "filter_shape_and+multi-value-in", "filter_shape_not+multi-value-in", "writer_heartbeats", "sync_ids_learned", "cases_history", "cases_script"}
 }
 
 func (p c12) Run(c *fw.Ctx, idx int) fw.Result {
@@ -68,7 +68,7 @@ func (p c12) Run(c *fw.Ctx, idx int) fw.Result {
 	Check(&res, h)
 	if ci.Kind == "script" {
 		res.Key = fw.HashKey("C12", ci.Name, ci.ShutdownAt)
-		res.Nontrivial = h.Parked > 0 || ((ci.Row == 6 || ci.Row == 11 || ci.Row == 14) && res.Counters["messages_checked"] > 0)
+		res.Nontrivial = h.Parked > 0 || ((ci.Row == 6 || ci.Row == 11 || ci.Row == 14 || ci.Row == 15) && res.Counters["messages_checked"] > 0)
 		if len(ci.NotReached) > 0 {
 			res.Inconclusive = "hook-not-reached: " + strings.Join(ci.NotReached, ", ")
 		}
@@ -247,7 +247,10 @@ func Check(res *fw.Result, h *subrig.History) {
 		}
 
 		// delivered ⊇ must(s)
-		rem, _ := h.FirstRemoval(s)
+		rem, _ := h.FirstRemovalJudged(s)
+		if n := h.StaleRemovals(s); n > 0 {
+			res.Count("stale_source_finishes_not_accepted_as_removal", int64(n))
+		}
 		for _, e := range h.Events {
 			if e.Key != s.Key || e.Ret == 0 || e.Inst == nil {
 				continue
